@@ -74,9 +74,15 @@ fn one_case(ctx: &Ctx, out: &mut Outcome, rng: &mut Rng, idx: u64) {
         cfg.l0_merge_threshold = usize::MAX;
     }
     let extra_chunks = if pre_cycles > 0 { rng.usize(8) } else { 0 };
+    // one case in three starts with a lease left behind by another compactor node (crashed, or simply slower): it
+    // covers one of the catalog's own L0 groups or a few arbitrary chunks and is given up after `lease_hold` cycles
+    let foreign_lease = rng.chance(1, 3);
+    let lease_hold = 1 + rng.usize(2);
+    let lease_on_group = rng.chance(2, 3);
+    let mut lease_rng = rng.fork(2);
     let mut data_rng = rng.fork(1);
     let cfg_desc = format!(
-        "backend={} chunks={}+{} buckets={} pre_cycles={} l0_threshold={} l1_target={} l2_target={} max_levels={}",
+        "backend={} chunks={}+{} buckets={} pre_cycles={} l0_threshold={} l1_target={} l2_target={} max_levels={} foreign_lease={}",
         if local_backend { "local" } else { "object-store" },
         nchunks,
         extra_chunks,
@@ -85,7 +91,8 @@ fn one_case(ctx: &Ctx, out: &mut Outcome, rng: &mut Rng, idx: u64) {
         cfg.l0_merge_threshold,
         cfg.l1_target_size,
         cfg.l2_target_size,
-        cfg.max_levels
+        cfg.max_levels,
+        if foreign_lease { format!("held-for-{}-cycles", lease_hold) } else { "none".to_string() }
     );
     let cfg2 = cfg.clone();
     let res: CaseResult = sim::run_sim(async move {
@@ -115,14 +122,47 @@ fn one_case(ctx: &Ctx, out: &mut Outcome, rng: &mut Rng, idx: u64) {
             p.sort();
             p
         };
+        let mut foreign: Option<String> = None;
+        if foreign_lease {
+            let mut chunks: Vec<String> = vec![];
+            if lease_on_group {
+                if let Ok(groups) = base.get_l0_candidates(cfg2.l0_merge_threshold.max(1)).await {
+                    if !groups.is_empty() {
+                        chunks = groups[lease_rng.usize(groups.len())].clone();
+                    }
+                }
+            }
+            if chunks.is_empty() {
+                let all = list(base.clone()).await;
+                let n = 1 + lease_rng.usize(3);
+                for _ in 0..n.min(all.len()) {
+                    let p = all[lease_rng.usize(all.len())].clone();
+                    if !chunks.contains(&p) {
+                        chunks.push(p);
+                    }
+                }
+            }
+            if !chunks.is_empty() {
+                if let Ok(l) = base.acquire_lease("another-compactor", &chunks, 0).await {
+                    ctl.mark("c", "FOREIGN_LEASE", &serde_json::to_string(&chunks).unwrap_or_default(), &l.lease_id);
+                    foreign = Some(l.lease_id);
+                }
+            }
+        }
         ctl.mark("c", "MAIN_BEGIN", "", "");
         let start = 0;
         let rec: Arc<dyn MetadataClient> = RecMeta::new(base.clone(), ctl.clone(), "c.meta");
         let comp = Compactor::new(cfg2, ctl.store("c"), rec, storage_config(), monitor);
         let mut snapshots = vec![list(base.clone()).await];
-        let bound = snapshots[0].len() + 2;
+        let bound = snapshots[0].len() + 2 + if foreign.is_some() { lease_hold } else { 0 };
         let mut cycle_results = vec![];
         for c in 0..bound + 1 {
+            if c == lease_hold {
+                if let Some(id) = foreign.take() {
+                    let _ = base.fail_lease(&id).await;
+                    ctl.mark("c", "FOREIGN_LEASE_GIVEN_UP", &id, "");
+                }
+            }
             ctl.mark("c", "CYCLE_BEGIN", &format!("{}", c), "");
             let r = comp.run_compaction_cycle().await;
             cycle_results.push(match r {
@@ -132,7 +172,7 @@ fn one_case(ctx: &Ctx, out: &mut Outcome, rng: &mut Rng, idx: u64) {
             let s = list(base.clone()).await;
             let fixed = snapshots.last() == Some(&s);
             snapshots.push(s);
-            if fixed {
+            if fixed && foreign.is_none() {
                 break;
             }
         }
@@ -182,6 +222,7 @@ fn one_case(ctx: &Ctx, out: &mut Outcome, rng: &mut Rng, idx: u64) {
     }
     let mut merges_total = 0u64;
     let mut used_in_cycle: BTreeSet<String> = BTreeSet::new();
+    let mut leased_in_cycle: BTreeSet<String> = BTreeSet::new();
     let mut cycle_no = 0;
     let mut main = false;
     for e in &res.events {
@@ -201,6 +242,7 @@ fn one_case(ctx: &Ctx, out: &mut Outcome, rng: &mut Rng, idx: u64) {
         }
         if e.op == "CYCLE_BEGIN" {
             used_in_cycle.clear();
+            leased_in_cycle.clear();
             cycle_no += 1;
         }
         if e.call || !e.op.starts_with("META:") {
@@ -221,6 +263,22 @@ fn one_case(ctx: &Ctx, out: &mut Outcome, rng: &mut Rng, idx: u64) {
                     }
                 }
                 out.count("candidate_calls_checked", 1);
+            }
+        }
+        if e.op == "META:acquire_lease" && e.result.starts_with("ok|") {
+            // a granted lease is a group the cycle selected for merging
+            let f: Vec<&str> = e.path.splitn(2, '|').collect();
+            let rest = f.get(1).copied().unwrap_or("");
+            let chunks: Vec<String> = rest.rfind('|').and_then(|i| serde_json::from_str(&rest[..i]).ok()).unwrap_or_default();
+            out.count("groups_selected", 1);
+            for c in &chunks {
+                if !leased_in_cycle.insert(c.clone()) {
+                    out.violation(
+                        "C20/chunk-in-two-groups-of-one-cycle",
+                        &format!("cycle {}: {} is in two groups the compactor took a lease on", cycle_no, c),
+                        witness(json!({"group": chunks})),
+                    );
+                }
             }
         }
         if e.op == "META:swap_compacted_chunk" && e.result.starts_with("ok|") {
@@ -250,6 +308,11 @@ fn one_case(ctx: &Ctx, out: &mut Outcome, rng: &mut Rng, idx: u64) {
         }
     }
     out.count("merges_observed", merges_total);
+    if res.events.iter().any(|e| e.op == "FOREIGN_LEASE") {
+        out.count("cases_starting_with_a_lease_held_by_another_compactor", 1);
+        let refused = res.events.iter().filter(|e| !e.call && e.op == "META:acquire_lease" && !e.result.starts_with("ok|")).count() as u64;
+        out.count("groups_refused_because_of_the_other_compactors_lease", refused);
+    }
     // ---- levels never decrease across catalog versions (object-store backend)
     if !local_backend {
         let puts = committed_puts(&res.events, "catalog.json");
